@@ -1,6 +1,6 @@
 #!/venv/bin/python
 """Confirm a seeded property-breaking change independently and run the checks against it.
-usage: tools/eval_mutant.py <srcdir> <k> <PROP> [--all]     (srcdir holds m<k>.diff, m<k>_demo.py, m<k>_notes.md)
+usage: tools/eval_mutant.py <srcdir> <k> <PROP> [--all] [--as <n>: keep as seeded/<PROP>-m<n>]     (srcdir holds m<k>.diff, m<k>_demo.py, m<k>_notes.md)
 Everything happens on a scratch copy of /repo outside /repo and /verif, removed afterwards."""
 import json, os, re, shutil, subprocess, sys, tempfile, time
 
@@ -16,6 +16,7 @@ def sh(cmd, cwd=None, env=None, timeout=3600):
 def main():
     src, k, prop = sys.argv[1], sys.argv[2], sys.argv[3]
     run_all = '--all' in sys.argv
+    as_k = sys.argv[sys.argv.index('--as') + 1] if '--as' in sys.argv else k
     diff = os.path.join(src, 'm%s.diff' % k)
     demo = os.path.join(src, 'm%s_demo.py' % k)
     notes = os.path.join(src, 'm%s_notes.md' % k)
@@ -71,7 +72,7 @@ def main():
         meta['caught_by'] = sorted(p for p, r in results.items() if r['rc'] == 1)
         meta['what_it_needs'] = open(notes).read()[:1500] if os.path.exists(notes) else ''
         meta['ran'] = 'tools/eval_mutant.py %s %s %s: patch applied to a scratch copy of /repo; repository suite (pinned version 0.2.9) run with the change; demo run with and without it; checks run with VERIF_REPO=<copy>' % (src, k, prop)
-        dst = '/verif/seeded/%s-m%s' % (prop, k)
+        dst = '/verif/seeded/%s-m%s' % (prop, as_k)
         os.makedirs(dst, exist_ok=True)
         shutil.copy(diff, dst + '/patch.diff'); shutil.copy(demo, dst + '/demo.py')
         if os.path.exists(notes):
